@@ -39,6 +39,9 @@ type c05RsScenario struct {
 	Ops  []c05RsOp
 	Caps []int           // per connection: the broker grants min(requested, cap); len = 1 + reconnections
 	Fail map[string]bool // filters for which every broker answers 0x80
+	// Resume: the (only) CONNACK reports a present session, as for a client that resumes a persistent
+	// session in which filters may be subscribed that this RetryClient object never asked for
+	Resume bool
 }
 
 func (sc *c05RsScenario) describe() map[string]interface{} {
@@ -60,7 +63,7 @@ func (sc *c05RsScenario) describe() map[string]interface{} {
 			fails = append(fails, t)
 		}
 	}
-	return map[string]interface{}{"application": ops, "broker_grants_min_requested_and_cap_per_connection": sc.Caps, "broker_answers_0x80_for": fails}
+	return map[string]interface{}{"application": ops, "session_present": sc.Resume, "broker_grants_min_requested_and_cap_per_connection": sc.Caps, "broker_answers_0x80_for": fails}
 }
 
 var c05RsTopics = []string{"a", "b", "c/+", "d/#", "e"}
@@ -82,6 +85,21 @@ func c05ResubScenarios(seed int64, tier string) []*c05RsScenario {
 				out = append(out, &c05RsScenario{Ops: h, Caps: []int{cap1, 2}})
 				out = append(out, &c05RsScenario{Ops: h, Caps: []int{cap1, (cap1 + 1) % 3, 2}})
 			}
+		}
+	}
+	if tier != "search" {
+		// UNSUBSCRIBE of filters this RetryClient never subscribed (alone, mixed with known ones, repeated),
+		// on a fresh and on a resumed session; one connection only
+		unk := [][]c05RsOp{
+			{U("never/subscribed")},
+			{S(c05RsSub{"a", 1}), U("a", "b")},
+			{S(c05RsSub{"a", 2}), U("a"), U("a")},
+			{U("a"), S(c05RsSub{"a", 2}, c05RsSub{"c/+", 0}), U("b", "a", "d/#")},
+			{S(c05RsSub{"b", 1}), U("a", "b", "c/+"), U("b", "e")},
+		}
+		for _, h := range unk {
+			out = append(out, &c05RsScenario{Ops: h, Caps: []int{2}})
+			out = append(out, &c05RsScenario{Ops: h, Caps: []int{2}, Resume: true})
 		}
 	}
 	nRand := 40
@@ -166,26 +184,34 @@ type c05RsResult struct {
 	Index   int                    `json:"index"`
 	Start   bool                   `json:"start,omitempty"`
 	Coq     string                 `json:"coq,omitempty"`
+	CoqReq  string                 `json:"coqreq,omitempty"`
 	Desc    map[string]interface{} `json:"desc,omitempty"`
 	Problem string                 `json:"problem,omitempty"`
 }
 
-func c05ResubRun(sc *c05RsScenario) (coq string, desc map[string]interface{}, problem string, err error) {
+func c05ResubRun(sc *c05RsScenario) (coq, coqReq string, desc map[string]interface{}, problem string, err error) {
 	desc = sc.describe()
 	rc := &mqtt.RetryClient{}
 	var granted [][]byte // conn 1: codes per SUBSCRIBE, in order
 	var later [][][]byte // packets after the CONNECT on connections 2..
 	var laterDesc []string
+	var firstPkts [][]byte // requests on connection 1
 	for k := range sc.Caps {
 		k := k
 		var pkts [][]byte
 		conn := newMemConn(k+1, func(c *memConn, pkt []byte) error {
 			if pkt[0]&0xF0 == 0x10 {
-				c.send(connackOK) // no session present
+				if sc.Resume {
+					c.send([]byte{0x20, 2, 1, 0}) // session present
+				} else {
+					c.send(connackOK) // no session present
+				}
 				return nil
 			}
 			if k > 0 {
 				pkts = append(pkts, append([]byte{}, pkt...))
+			} else {
+				firstPkts = append(firstPkts, append([]byte{}, pkt...))
 			}
 			switch pkt[0] & 0xF0 {
 			case 0x80:
@@ -305,6 +331,28 @@ func c05ResubRun(sc *c05RsScenario) (coq string, desc map[string]interface{}, pr
 			ops = append(ops, cTuple("SUnsub "+cListInline(ts), "[]"))
 		}
 	}
+	var opsOnly, firstWs, firstHx []string
+	for _, o := range sc.Ops {
+		if len(o.Subs) > 0 {
+			var ss []string
+			for _, s := range o.Subs {
+				ss = append(ss, cTuple(cStr(s.T), fmt.Sprint(s.Q)))
+			}
+			opsOnly = append(opsOnly, "SSub "+cListInline(ss))
+		} else {
+			var ts []string
+			for _, t := range o.Unsub {
+				ts = append(ts, cStr(t))
+			}
+			opsOnly = append(opsOnly, "SUnsub "+cListInline(ts))
+		}
+	}
+	for _, w := range firstPkts {
+		firstWs = append(firstWs, cBytes(w))
+		firstHx = append(firstHx, fmt.Sprintf("%x", w))
+	}
+	coqReq = cTuple(cListInline(opsOnly), cListInline(firstWs))
+	desc["written_after_connect_on_connection_1"] = firstHx
 	var cs []string
 	for _, c := range later {
 		var ws []string
@@ -319,7 +367,10 @@ func c05ResubRun(sc *c05RsScenario) (coq string, desc map[string]interface{}, pr
 	}
 	desc["granted_on_connection_1"] = gd
 	desc["written_after_connect_on_later_connections"] = laterDesc
-	return cTuple(cListInline(ops), cListInline(cs)), desc, problem, nil
+	if len(sc.Caps) > 1 {
+		coq = cTuple(cListInline(ops), cListInline(cs))
+	}
+	return coq, coqReq, desc, problem, nil
 }
 
 // child: runs every scenario, one JSON line before and one after each
@@ -330,11 +381,11 @@ func runC05ResubChild(cfg *runCfg) error {
 	for i, sc := range c05ResubScenarios(cfg.seed, cfg.tier) {
 		enc.Encode(c05RsResult{Index: i, Start: true})
 		w.Flush()
-		coq, desc, problem, err := c05ResubRun(sc)
+		coq, coqReq, desc, problem, err := c05ResubRun(sc)
 		if err != nil {
 			return err
 		}
-		enc.Encode(c05RsResult{Index: i, Coq: coq, Desc: desc, Problem: problem})
+		enc.Encode(c05RsResult{Index: i, Coq: coq, CoqReq: coqReq, Desc: desc, Problem: problem})
 		w.Flush()
 		if problem != "" {
 			if problems++; problems >= 2 {
@@ -358,7 +409,7 @@ func c05Resub(cfg *runCfg, cf *casesFile, m *meta, dist map[string]int) (int, er
 	if err := cmd.Start(); err != nil {
 		return 0, err
 	}
-	var cases []string
+	var cases, reqCases []string
 	started := -1
 	finished := -1
 	rd := bufio.NewReaderSize(out, 1<<20)
@@ -371,6 +422,16 @@ func c05Resub(cfg *runCfg, cf *casesFile, m *meta, dist map[string]int) (int, er
 					started = res.Index
 				} else {
 					finished = res.Index
+					if res.CoqReq != "" {
+						reqCases = append(reqCases, res.CoqReq)
+						m.Families["rcreq"] = append(m.Families["rcreq"], res.Desc)
+					}
+					if res.Coq == "" {
+						if res.Problem != "" {
+							m.ImplViolations = append(m.ImplViolations, map[string]interface{}{"what": res.Problem, "case": res.Desc})
+						}
+						continue
+					}
 					cases = append(cases, res.Coq)
 					m.Families["resub"] = append(m.Families["resub"], res.Desc)
 					if len(m.Families["resub"]) == 1 {
@@ -407,5 +468,9 @@ func c05Resub(cfg *runCfg, cf *casesFile, m *meta, dist map[string]int) (int, er
 	cf.def("resub_cases", "list (list (sop * list N) * list (list (list N)))", cList(cases))
 	cf.result("V_resub", "c05_resub_violations resub_cases")
 	cf.result("M_resub", "c05_resub_mismatches resub_cases")
-	return len(cases), nil
+	dist["retryclient_request_histories"] = len(reqCases)
+	cf.def("rcreq_cases", "list (list sop * list (list N))", cList(reqCases))
+	cf.result("V_rcreq", "c05_rcreq_violations rcreq_cases")
+	cf.result("M_rcreq", "c05_rcreq_mismatches rcreq_cases")
+	return len(cases) + len(reqCases), nil
 }
